@@ -62,7 +62,7 @@ var towardsZero = []string{"1e-400", "-1e-400", "1e-99999", "0e999999", "0E-9999
 
 func (g *tg) number() {
 	r := g.r
-	switch r.Pick(20, 5, 5, 10, 14, 16, 8, 2, 3, 12, 10) {
+	switch r.Pick(20, 5, 5, 10, 14, 16, 8, 4, 3, 12, 10) {
 	case 10:
 		// integers of 16..20 digits (2^53 .. 2^64 and a bit beyond), 17-digit decimals
 		s := fmt.Sprint(1+r.Intn(9)) + g.digits(15+r.Intn(5))
@@ -488,7 +488,7 @@ func (g *gen) vnum() *Num {
 func (g *gen) value(d, maxD, containers int, inToJSON bool) *V {
 	r := g.r
 	//        null bool num str undef fun sym boxn boxs boxb arr obj bigint boxbig cyc tojson boxsym
-	w := []int{8, 8, 14, 14, 5, 3, 3, 3, 3, 2, 17, 20, 1, 1, 2, 3, 1}
+	w := []int{8, 8, 14, 14, 5, 3, 3, 3, 3, 2, 17, 20, 1, 1, 2, 3, 3}
 	if d >= maxD {
 		w[10], w[11], w[15] = 0, 0, 0
 	}
@@ -499,7 +499,7 @@ func (g *gen) value(d, maxD, containers int, inToJSON bool) *V {
 		w[15] = 0
 	}
 	if !r.Chance(45) { // keep the rare kinds rare per case, not only per node
-		w[12], w[13], w[14], w[16] = 0, 0, 0, 0
+		w[12], w[13], w[14] = 0, 0, 0
 	}
 	switch r.Pick(w...) {
 	case 0:
@@ -582,7 +582,7 @@ func (g *gen) space() *V {
 		}
 		return &V{T: "boxstr", S: v.S}
 	}
-	switch r.Pick(35, 26, 27, 9, 1, 1, 1) {
+	switch r.Pick(32, 24, 26, 8, 3, 3, 4) {
 	case 0:
 		return &V{T: "undef"}
 	case 1:
@@ -604,7 +604,11 @@ func (g *gen) space() *V {
 	case 5:
 		return box(numQ([]string{"36893488147419103232", "4000000000000000000000000000000", "73786976294838206464"}[r.Intn(3)]))
 	default:
-		return box(&V{T: "str", S: u16([]string{"\u00e9", "\u00e9\u00e9\u00e9\u00e9\u00e9\u00e9\u00e9", "\u20ac\u20ac\u20ac\u20ac", " \u00e9"}[r.Intn(4)])})
+		// non-ASCII gaps; truncation to 10 code units may split a surrogate pair or keep a lone surrogate
+		return box(&V{T: "str", S: [][]uint16{u16("\u00e9"), u16("\u00e9\u00e9\u00e9\u00e9\u00e9\u00e9\u00e9"), u16("\u20ac\u20ac\u20ac\u20ac"),
+			u16(" \u00e9"), u16("a\u00e9b"), u16("\u00e9\u00e9\u00e9\u00e9\u00e9\u00e9\u00e9\u00e9\u00e9\u00e9\u00e9\u00e9"),
+			u16("x\U0001F600\U0001F600\U0001F600\U0001F600\U0001F600"), u16("\U0001F600\U0001F600\U0001F600\U0001F600\U0001F600\U0001F600"),
+			{0x20, 0xd800}, {0xdc00, 0x9}, u16("\u2028\u2029\ufeff\u00a0")}[r.Intn(11)]})
 	}
 }
 
